@@ -20,11 +20,11 @@ theorem get?_markReverts (m : Metadata) (hm : Map.WF m) (id : Nat) (key : String
   · simp only [if_neg h]
 
 /-- everything `buildRevertTx` can return -/
-theorem buildRevertTx_ok {orig : Tx} {inp : RevertInput} {balances : Balances} {tx : Tx}
-    (h : buildRevertTx orig inp balances = .ok tx) :
+theorem buildRevertTxV_ok {v : RevertCheck} {orig : Tx} {inp : RevertInput} {balances : Balances} {tx : Tx}
+    (h : buildRevertTxV v orig inp balances = .ok tx) :
     ∃ id ts, orig.id = some id ∧ revertTimestamp orig inp.atEffectiveDate = .ok ts ∧
       tx = revertTxOf orig inp ts id := by
-  unfold buildRevertTx at h
+  unfold buildRevertTxV at h
   cases hts : revertTimestamp orig inp.atEffectiveDate with
   | error e => rw [hts] at h; simp at h
   | ok ts =>
@@ -39,7 +39,7 @@ theorem buildRevertTx_ok {orig : Tx} {inp : RevertInput} {balances : Balances} {
       by_cases hf : inp.force = true
       · simp only [hf, if_true] at h; cases h; rfl
       · simp only [hf] at h
-        cases hra : revertApply balances (reversePostings orig.postings) with
+        cases hra : revertApply v balances (reversePostings orig.postings) with
         | error e => rw [hra] at h; simp at h
         | ok b =>
           rw [hra] at h
@@ -48,15 +48,15 @@ theorem buildRevertTx_ok {orig : Tx} {inp : RevertInput} {balances : Balances} {
           · simp [ho] at h
           · simp only [ho] at h; cases h; rfl
 
-theorem buildRevertTx_shape (orig : Tx) (inp : RevertInput) (balances : Balances) (tx : Tx)
-    (hm : Map.WF inp.metadata) (h : buildRevertTx orig inp balances = .ok tx) :
+theorem buildRevertTx_shape (v : RevertCheck) (orig : Tx) (inp : RevertInput) (balances : Balances) (tx : Tx)
+    (hm : Map.WF inp.metadata) (h : buildRevertTxV v orig inp balances = .ok tx) :
     tx.postings = reversePostings orig.postings ∧
     (∃ id, orig.id = some id ∧ tx.metadata.get? revertMetaKey = some (toString id)) ∧
     (∀ key, key ≠ revertMetaKey → tx.metadata.get? key = inp.metadata.get? key) ∧
     tx.timestamp = (if inp.atEffectiveDate then orig.timestamp else orig.revertedAt) ∧
     (inp.atEffectiveDate = false → orig.revertedAt ≠ none) ∧
     tx.id = none ∧ tx.reference = "" ∧ tx.revertedAt = none := by
-  obtain ⟨id, ts, hid, hts, rfl⟩ := buildRevertTx_ok h
+  obtain ⟨id, ts, hid, hts, rfl⟩ := buildRevertTxV_ok h
   have hts' : ts = (if inp.atEffectiveDate then orig.timestamp else orig.revertedAt) ∧
       (inp.atEffectiveDate = false → orig.revertedAt ≠ none) := by
     unfold revertTimestamp at hts
@@ -79,9 +79,9 @@ theorem hasAccount_adjust (b : Balances) (k : Key) (f : Int → Int) (a : String
     hasAccount (b.adjust k f) a = hasAccount b a := by
   rw [hasAccount_eq_keys, hasAccount_eq_keys, Map.keys_adjust]
 
-theorem revertApply_no_panic (b : Balances) (rps : List Posting)
+theorem revertApply_preFix_no_panic (b : Balances) (rps : List Posting)
     (h : ∀ rp ∈ rps, b.contains rp.srcKey = true ∧ (hasAccount b rp.destination = true → b.contains rp.dstKey = true)) :
-    revertApply b rps ≠ .error .nilDeref := by
+    revertApply .preFix b rps ≠ .error .nilDeref := by
   induction rps generalizing b with
   | nil => simp [revertApply]
   | cons rp rps ih =>
@@ -118,15 +118,66 @@ theorem revertApply_no_panic (b : Balances) (rps : List Posting)
         · intro k; rw [Map.contains_adjust]
         · intro a; rw [hasAccount_adjust]
 
-/-- A revert built from store-provided inputs does not panic when forced, or when `balances`
-    is closed for the transaction: it has every (destination, asset) pair and, for every
-    posting whose source account appears in it, the (source, asset) pair too. -/
-theorem buildRevertTx_no_panic (orig : Tx) (inp : RevertInput) (balances : Balances)
+/-- The current check only needs the debited pairs to be tracked. -/
+theorem revertApply_current_no_panic (b : Balances) (rps : List Posting)
+    (h : ∀ rp ∈ rps, b.contains rp.srcKey = true) :
+    revertApply .current b rps ≠ .error .nilDeref := by
+  induction rps generalizing b with
+  | nil => simp [revertApply]
+  | cons rp rps ih =>
+    have hs := h rp List.mem_cons_self
+    have hrest : ∀ (b' : Balances), (∀ k, b'.contains k = b.contains k) → ∀ q ∈ rps, b'.contains q.srcKey = true := by
+      intro b' hc q hq
+      rw [hc]; exact h q (List.mem_cons_of_mem _ hq)
+    unfold revertApply
+    have hs' : (b.get? rp.srcKey).isSome = true := hs
+    cases hg : b.get? rp.srcKey with
+    | none => rw [hg] at hs'; simp at hs'
+    | some v =>
+      simp only []
+      by_cases hc : (b.adjust rp.srcKey (· - rp.amount)).contains rp.dstKey = true
+      · simp only [hc, if_true]
+        apply ih
+        apply hrest
+        intro k; rw [Map.contains_adjust, Map.contains_adjust]
+      · simp only [hc]
+        apply ih
+        apply hrest
+        intro k; rw [Map.contains_adjust]
+
+/-- keys of the `InvolvedDestinations` fold -/
+theorem mem_keys_foldl_insert_dst (ps : List Posting) (m : Map Key Unit) (k : Key) :
+    k ∈ (ps.foldl (fun (m : Map Key Unit) p => m.insert p.dstKey ()) m).keys ↔
+      k ∈ m.keys ∨ ∃ p ∈ ps, p.dstKey = k := by
+  induction ps generalizing m with
+  | nil => simp
+  | cons p ps ih =>
+    simp only [List.foldl_cons]
+    rw [ih]
+    unfold Map.insert
+    rw [Map.keys_insertWith_perm_mem]
+    constructor
+    · rintro ((h | h) | ⟨q, hq, hk⟩)
+      · exact Or.inr ⟨p, List.mem_cons_self, h.symm⟩
+      · exact Or.inl h
+      · exact Or.inr ⟨q, List.mem_cons_of_mem _ hq, hk⟩
+    · rintro (h | ⟨q, hq, hk⟩)
+      · exact Or.inl (Or.inr h)
+      · rcases List.mem_cons.mp hq with rfl | hq
+        · exact Or.inl (Or.inl hk.symm)
+        · exact Or.inr ⟨q, hq, hk⟩
+
+theorem dstKey_mem_involvedDestinations {ps : List Posting} {p : Posting} (h : p ∈ ps) :
+    p.dstKey ∈ involvedDestinations ps := by
+  unfold involvedDestinations
+  rw [mem_keys_foldl_insert_dst]
+  exact Or.inr ⟨p, h, rfl⟩
+
+theorem buildRevertTxV_no_panic (v : RevertCheck) (orig : Tx) (inp : RevertInput) (balances : Balances)
     (hid : orig.id ≠ none) (hrev : orig.revertedAt ≠ none)
-    (hc : inp.force = true ∨ ∀ p ∈ orig.postings, balances.contains p.dstKey = true ∧
-            (hasAccount balances p.source = true → balances.contains p.srcKey = true)) :
-    buildRevertTx orig inp balances ≠ .error .nilDeref := by
-  unfold buildRevertTx
+    (hnp : inp.force = false → revertApply v balances (reversePostings orig.postings) ≠ .error .nilDeref) :
+    buildRevertTxV v orig inp balances ≠ .error .nilDeref := by
+  unfold buildRevertTxV
   have hts : ∃ ts, revertTimestamp orig inp.atEffectiveDate = .ok ts := by
     unfold revertTimestamp
     by_cases ha : inp.atEffectiveDate = true
@@ -144,23 +195,48 @@ theorem buildRevertTx_no_panic (orig : Tx) (inp : RevertInput) (balances : Balan
     by_cases hf : inp.force = true
     · simp [hf]
     · simp only [hf]
-      rcases hc with hc | hc
-      · exact absurd hc hf
-      · have hnp : revertApply balances (reversePostings orig.postings) ≠ .error .nilDeref := by
-          apply revertApply_no_panic
-          intro rp hrp
-          simp only [reversePostings, List.mem_reverse, List.mem_map] at hrp
-          obtain ⟨p, hp, rfl⟩ := hrp
-          exact hc p hp
-        cases hra : revertApply balances (reversePostings orig.postings) with
-        | error e =>
-          simp only []
-          intro he
-          apply hnp
-          rw [hra]
-          simpa using he
-        | ok b =>
-          simp only []
-          by_cases ho : anyOverdrawn b = true <;> simp [ho]
+      have hnp' := hnp (by simpa using hf)
+      cases hra : revertApply v balances (reversePostings orig.postings) with
+      | error e =>
+        simp only []
+        intro he
+        apply hnp'
+        rw [hra]
+        simpa using he
+      | ok b =>
+        simp only []
+        by_cases ho : anyOverdrawn b = true <;> simp [ho]
+
+/-- The code in the tree never panics on store-provided inputs: id and `reverted_at` set and
+    `balances` holding the (destination, asset) pairs of the original transaction. -/
+theorem buildRevertTx_total (orig : Tx) (inp : RevertInput) (balances : Balances)
+    (hid : orig.id ≠ none) (hrev : orig.revertedAt ≠ none)
+    (hb : balances.keys = involvedDestinations orig.postings) :
+    buildRevertTx orig inp balances ≠ .error .nilDeref := by
+  apply buildRevertTxV_no_panic .current orig inp balances hid hrev
+  intro _
+  apply revertApply_current_no_panic
+  intro rp hrp
+  simp only [reversePostings, List.mem_reverse, List.mem_map] at hrp
+  obtain ⟨p, hp, rfl⟩ := hrp
+  rw [Map.contains_iff_mem_keys, hb]
+  exact dstKey_mem_involvedDestinations hp
+
+/-- The pre-fix check did not panic when forced, or when `balances` was closed for the
+    transaction. -/
+theorem buildRevertTx_preFix_no_panic (orig : Tx) (inp : RevertInput) (balances : Balances)
+    (hid : orig.id ≠ none) (hrev : orig.revertedAt ≠ none)
+    (hc : inp.force = true ∨ ∀ p ∈ orig.postings, balances.contains p.dstKey = true ∧
+            (hasAccount balances p.source = true → balances.contains p.srcKey = true)) :
+    buildRevertTxV .preFix orig inp balances ≠ .error .nilDeref := by
+  apply buildRevertTxV_no_panic .preFix orig inp balances hid hrev
+  intro hf
+  rcases hc with hc | hc
+  · rw [hf] at hc; exact absurd hc (by simp)
+  · apply revertApply_preFix_no_panic
+    intro rp hrp
+    simp only [reversePostings, List.mem_reverse, List.mem_map] at hrp
+    obtain ⟨p, hp, rfl⟩ := hrp
+    exact hc p hp
 
 end Ledger.Spec
